@@ -294,6 +294,11 @@ func GetOutputNodes(root *html.Node) []*html.Node {
 		case html.ElementNode:
 			// Like the original dom-distiller, elements that are not
 			// rendered (script, style, hidden elements) are not output.
+			switch dom.TagName(node) {
+			case "script", "style":
+				// Never output, even when an inline style makes them "visible".
+				return false
+			}
 			if !IsProbablyVisible(node) {
 				return false
 			}
